@@ -86,6 +86,8 @@ type TermBank struct {
 	strLits    map[string]*Term // UF-mode string literals
 	useStrings bool             // SMT string theory instead of UF strings
 	axiomNames map[string]bool
+	symMemo    map[*Term]map[string]bool
+	noSyms     map[*Term]bool
 	strLitLen  map[*Term]int
 }
 
@@ -121,6 +123,7 @@ func NewTermBank() *TermBank {
 		dtypeSet:   map[Sort]bool{},
 		strLits:    map[string]*Term{},
 		axiomNames: map[string]bool{},
+		noSyms:     map[*Term]bool{},
 		strLitLen:  map[*Term]int{},
 	}
 	return tb
@@ -418,6 +421,9 @@ func (tb *TermBank) Or(as ...*Term) *Term {
 			return tb.True()
 		}
 	}
+	if len(out) > 1 && len(out) <= 24 {
+		out = tb.orCombine(out)
+	}
 	if len(out) == 0 {
 		return tb.False()
 	}
@@ -425,6 +431,80 @@ func (tb *TermBank) Or(as ...*Term) *Term {
 		return out[0]
 	}
 	return tb.App("or", SBool, out...)
+}
+
+func conjuncts(t *Term) []*Term {
+	if t.op == "and" {
+		return t.args
+	}
+	return []*Term{t}
+}
+
+// orCombine merges disjuncts (X ∧ c) ∨ (X ∧ ¬c) into X and drops absorbed disjuncts; this keeps
+// reachability conditions of re-joined branches small.
+func (tb *TermBank) orCombine(ds []*Term) []*Term {
+	for changed := true; changed && len(ds) > 1; {
+		changed = false
+	outer:
+		for i := 0; i < len(ds); i++ {
+			for j := 0; j < len(ds); j++ {
+				if i == j {
+					continue
+				}
+				a, b := conjuncts(ds[i]), conjuncts(ds[j])
+				inB := map[*Term]bool{}
+				for _, x := range b {
+					inB[x] = true
+				}
+				// absorption: a ⊆ b  =>  drop b
+				sub := true
+				var onlyA []*Term
+				for _, x := range a {
+					if !inB[x] {
+						sub = false
+						onlyA = append(onlyA, x)
+					}
+				}
+				if sub {
+					ds = append(ds[:j], ds[j+1:]...)
+					changed = true
+					break outer
+				}
+				// complementary remainders: (X ∧ P) ∨ (X ∧ ¬P)  =>  X
+				inA := map[*Term]bool{}
+				for _, x := range a {
+					inA[x] = true
+				}
+				var onlyB, common []*Term
+				for _, x := range b {
+					if !inA[x] {
+						onlyB = append(onlyB, x)
+					} else {
+						common = append(common, x)
+					}
+				}
+				if len(onlyA) > 0 && len(onlyB) > 0 && (len(onlyA) == 1 || len(onlyB) == 1) {
+					pa, pb := tb.And(onlyA...), tb.And(onlyB...)
+					if tb.Not(pa) == pb || tb.Not(pb) == pa {
+						m := tb.And(common...)
+						if m.IsTrue() {
+							return []*Term{m}
+						}
+						var nd []*Term
+						for k, d := range ds {
+							if k != i && k != j {
+								nd = append(nd, d)
+							}
+						}
+						ds = append(nd, m)
+						changed = true
+						break outer
+					}
+				}
+			}
+		}
+	}
+	return ds
 }
 
 func (tb *TermBank) Implies(a, b *Term) *Term {
@@ -535,6 +615,15 @@ func (tb *TermBank) Select(arr, idx *Term) *Term {
 	if arr.op == "const-array" {
 		return arr.args[0]
 	}
+	if arr.op == "ite" && !idx.bound {
+		a, b := tb.Select(arr.args[1], idx), tb.Select(arr.args[2], idx)
+		if a == b {
+			return a
+		}
+		if !(a.op == "select" && a.args[0] == arr.args[1]) || !(b.op == "select" && b.args[0] == arr.args[2]) {
+			return tb.Ite(arr.args[0], a, b)
+		}
+	}
 	return tb.App("select", vs, arr, idx)
 }
 
@@ -629,6 +718,42 @@ func (tb *TermBank) Quant(q string, vars []*Term, body *Term) *Term {
 
 func (tb *TermBank) Forall(vars []*Term, body *Term) *Term { return tb.Quant("forall", vars, body) }
 func (tb *TermBank) Exists(vars []*Term, body *Term) *Term { return tb.Quant("exists", vars, body) }
+
+// Syms returns the uninterpreted symbols (constants and functions) occurring in t.
+func (tb *TermBank) Syms(t *Term) map[string]bool {
+	if tb.symMemo == nil {
+		tb.symMemo = map[*Term]map[string]bool{}
+	}
+	if m, ok := tb.symMemo[t]; ok {
+		return m
+	}
+	m := map[string]bool{}
+	seen := map[*Term]bool{}
+	var rec func(t *Term)
+	rec = func(t *Term) {
+		if seen[t] {
+			return
+		}
+		seen[t] = true
+		if tb.noSyms[t] {
+			return // clock values connect everything; they never count as a relevance link
+		}
+		if t.kind == kConst {
+			m[t.atom] = true
+		}
+		if t.kind == kApp {
+			if _, ok := tb.funcs[t.op]; ok {
+				m[t.op] = true
+			}
+		}
+		for _, a := range t.args {
+			rec(a)
+		}
+	}
+	rec(t)
+	tb.symMemo[t] = m
+	return m
+}
 
 // Subst replaces terms by terms (used to instantiate bound variables).
 func (tb *TermBank) Subst(t *Term, m map[*Term]*Term) *Term {
